@@ -552,6 +552,75 @@ func runC19(r *Run) {
 		}
 	})
 
+	r.rule("R8", "the method the middleware sees is the method that was sent: c.Method() names the request's method through (*App).method, the inverse of methodInt — what it returns is an element of the configured table app.config.RequestMethods at the given position on every path; an element of the built-in DefaultMethods is the same name only while no table was configured (behind the test methodInt itself uses, len(configured.RequestMethods) == 0) — with RequestMethods {GET, POST, OPTIONS} a preflight OPTIONS would otherwise be reported as POST, CORS treats it as an actual request and sends no Allow-* headers (E8 inverse tables)", func() {
+		f := r.Fn("", "(*App).method")
+		n := 0
+		okAll := true
+		why := ""
+		for _, b := range f.Blocks {
+			for _, in := range b.Instrs {
+				ret, ok := in.(*ssa.Return)
+				if !ok || len(ret.Results) != 1 {
+					continue
+				}
+				n++
+				var leaves []ssa.Value
+				seen := map[ssa.Value]bool{}
+				var walk func(v ssa.Value)
+				walk = func(v ssa.Value) {
+					v = stripValue(v)
+					if seen[v] {
+						return
+					}
+					seen[v] = true
+					if ph, ok := v.(*ssa.Phi); ok {
+						for _, e := range ph.Edges {
+							walk(e)
+						}
+						return
+					}
+					leaves = append(leaves, v)
+				}
+				walk(ret.Results[0])
+				for _, lf := range leaves {
+					fromConfig := dependsOn(lf, func(v ssa.Value) bool {
+						if fa, ok := v.(*ssa.FieldAddr); ok {
+							if fv := fieldOfValue(fa); fv != nil && fv.Name() == "RequestMethods" {
+								return true
+							}
+						}
+						return false
+					}) != nil
+					fromDefault := dependsOn(lf, func(v ssa.Value) bool {
+						g, ok := v.(*ssa.Global)
+						return ok && g.Name() == "DefaultMethods"
+					}) != nil
+					if fromDefault {
+						guarded := false
+						if lfi, ok := lf.(ssa.Instruction); ok {
+							for _, br := range branchesInOne(f) {
+								if lenOfField(br.Info.Root, "RequestMethods") && br.Info.Const != nil && isConstInt(br.Info.Const, 0) {
+									if sl, ok := br.slotFor(token.EQL); ok && dom(br.If.Block().Succs[sl], lfi.Block()) {
+										guarded = true
+									}
+								}
+							}
+						}
+						if !guarded {
+							okAll = false
+							why = "a name of the built-in DefaultMethods table is returned without the test that no table was configured"
+						}
+					} else if !fromConfig {
+						okAll = false
+						why = "the returned name is not taken from app.config.RequestMethods"
+					}
+				}
+			}
+		}
+		r.need(n >= 1, "(*App).method returns a name")
+		r.check(okAll, "(*App).method:names-from-the-configured-table", r.fpos(f), "the name is the configured table's element at the position", why+": with a custom RequestMethods order or subset c.Method() reports another method than the one sent — OPTIONS becomes POST, the CORS middleware lets the preflight through to the handler and answers without Access-Control-Allow-Methods / -Headers")
+	})
+
 	r.rule("R7", "where all origins are allowed the answer does not depend on the origin: with the `allowAllOrigins` = false edges removed, no assignment of the request's origin to the allowed origin is reachable — the simple-request path skips `Vary: Origin` exactly when allowAllOrigins holds, an origin echoed on that path is cached for every origin (E1)", func() {
 		h := handler()
 		var originHeader ssa.Value
